@@ -55,9 +55,30 @@ def make_small(rng):
           kind = rng.choice(['int_unique', 'int_dup', 'float_nan', 'str', 'str_nan', 'obj_mixed', 'bool',
                            'str_unique', 'all_nan', 'unique_but_one_nan', 'Int64_na', 'boolean_na',
                            'Float64_na', 'string_na', 'Int64_unique_one_na', 'many_nan_float',
-                           'categorical_unused', 'datetime_nat', 'bigint_unique'])
+                           'categorical_unused', 'datetime_nat', 'bigint_unique', 'sorted_dup_gap',
+                           'sorted_unique', 'sorted_desc_dup', 'timedelta_nat', 'sorted_float_dup_gap',
+                           'sorted_str_dup'])
         name = 'c%d_%s' % (c, kind)
-        if kind == 'bigint_unique':
+        if kind in ('sorted_dup_gap', 'sorted_desc_dup', 'sorted_float_dup_gap', 'sorted_unique'):
+            # consecutive ids in sorted order; one id repeated and the next one skipped, so that first,
+            # last, length, monotonicity and the sum of gaps all look like those of a unique column
+            off = rng.choice([0, 1, -5, 1000])
+            vals = [off + i for i in range(n)]
+            if kind != 'sorted_unique' and n >= 3:
+                for _ in range(rng.choice([1, 1, 2])):
+                    i = rng.randint(1, n - 2)
+                    vals[i] = vals[i - 1]
+            if kind == 'sorted_desc_dup':
+                vals = vals[::-1]
+            cols[name] = pd.Series(vals, dtype='float64' if kind == 'sorted_float_dup_gap' else
+                                   rng.choice(['int64', 'int32']))
+        elif kind == 'sorted_str_dup':
+            vals = sorted('k%04d' % rng.randint(0, 2 * n) for _ in range(n))
+            cols[name] = pd.Series(vals, dtype=rng.choice([object, 'str']))
+        elif kind == 'timedelta_nat':
+            cols[name] = pd.Series([pd.NaT if rng.random() < 0.2 else pd.Timedelta(hours=rng.randint(0, 2 * n))
+                                    for _ in range(n)], dtype='timedelta64[ns]')
+        elif kind == 'bigint_unique':
             cols[name] = pd.Series([2 ** 53 + 1 + 2 * x for x in rng.sample(range(10 * n + 5), n)], dtype='int64')
         elif kind == 'int_unique':
             cols[name] = pd.Series(rng.sample(range(10 * n + 5), n), dtype='int64')
@@ -140,6 +161,10 @@ def make_big(rng):
     d[i] = d[j]
     d[k] = np.nan
     cols['one_dup_one_missing'] = d
+    g = base.copy()
+    i = rng.randint(1, n - 2)
+    g[i] = g[i - 1]                     # sorted, one id repeated and the next skipped
+    cols['sorted_dup_gap'] = g
     s = pd.Series(['s%d' % x for x in base], dtype=object)
     s.iloc[rng.randrange(n)] = None
     cols['str_one_missing'] = s
